@@ -400,6 +400,11 @@ class Lexer():
                         self._in_string_skip_space = True
                         i += 2
                         continue
+                    elif s[i+1:i+2] == b'\r':
+                        # A backslash at the end of a line written with a
+                        # "\r" or "\r\n" line end is a newline, too.
+                        c = b'\n'
+                        i += 2 if s[i+2:i+3] == b'\n' else 1
                     else:
                         next_c = s[i+1:i+2]
                         if next_c in _STRING_ESCAPES:
